@@ -79,6 +79,9 @@ def main():
             env3["VERIF_NO_EVIDENCE"] = "1"
             rc, o = run([os.path.join(VERIF, "check"), p, tier], cwd=VERIF, env=env3, timeout=7200)
             sigs = sorted({ln.split("signature=")[1].split(" ::")[0] for ln in o.splitlines() if "signature=" in ln})
+            reported = any(ln.startswith(f"VIOLATION property={p} ") for ln in o.splitlines())
+            if rc == 1 and not reported:
+                rc = 3      # exit 1 without a VIOLATION line is a crashed check, not a detection
             results[p] = {"exit": rc, "signatures": sigs[:8], "last": o.strip().splitlines()[-1][:300] if o.strip() else ""}
         out["checks"] = results
         out["caught_by"] = [p for p, r in results.items() if r["exit"] == 1]
